@@ -270,3 +270,55 @@ Qed.
 End Rule.
 
 End ScanProofs.
+
+(* ---------- C01/C03: feeding the returned offset back, from OffsetOldest, visits every live message exactly once,
+   in order, and stops at NextOffset *)
+Section FullScan.
+Variable H : bytes -> Z.
+
+Lemma full_scan_aux max : 1 <= max -> forall fuel st off acc done R,
+  Inv st -> live (abs st) = done ++ R -> from_off (live (abs st)) off = R ->
+  off <= anext (abs st) -> off <> OffsetNewest -> (length R + 1 < fuel)%nat ->
+  exists st', full_scan H fuel st off max acc = Ok (st', acc ++ R, anext (abs st)) /\ Inv st' /\ abs st' = abs st.
+Proof.
+  intros Hmax. induction fuel as [|f IH]; intros st off acc done R HI HL Hfrom Hoff Hnew Hfuel; [lia|].
+  cbn [full_scan].
+  destruct (consume_step H st off max HI Hmax Hoff Hnew) as (st1 & n & ms & E & HI1 & HA1 & Hcase).
+  rewrite E. cbn [bind]. rewrite Hfrom in Hcase.
+  destruct Hcase as [(-> & HR & ->)|(m & rest & Hl & HR & ->)].
+  - exists st1. rewrite HR, app_nil_r. split; [reflexivity|split; assumption].
+  - assert (Hms : ms <> []) by (intro Hc; subst ms; discriminate).
+    assert (Hinc : inc (live (abs st))) by (destruct HI as (_ & HF & Hch & _); now apply all_recs_inc).
+    assert (Hnn : forall x, In x (live (abs st)) -> 0 <= moff x).
+    { intros x Hx. unfold abs in Hx. cbn [live] in Hx. destruct (in_all_recs _ _ Hx) as (s & Hs & Hxs).
+      destruct HI as (_ & HF & _). rewrite Forall_forall in HF. destruct (HF s Hs) as (_ & Hn & _). now apply Hn. }
+    assert (Hm_in : In m (live (abs st))).
+    { rewrite HL, HR. apply in_or_app. right. apply in_or_app. left. now apply last_opt_in. }
+    assert (Hlen : (length rest + 1 < f)%nat).
+    { rewrite HR, app_length in Hfuel. destruct ms; [congruence|]. cbn [length] in Hfuel. lia. }
+    destruct (IH st1 (moff m + 1) (acc ++ ms) (done ++ ms) rest HI1) as (st' & E' & HI' & HA').
+    + rewrite HA1, HL, HR. now rewrite app_assoc.
+    + rewrite HA1. apply (from_off_advance (live (abs st)) off ms rest m Hinc Hnn); [rewrite Hfrom; exact HR|exact Hl].
+    + rewrite HA1. pose proof (abs_offsets_below_next st m HI Hm_in). lia.
+    + pose proof (Hnn m Hm_in). unfold OffsetNewest. lia.
+    + exact Hlen.
+    + exists st'. destruct ms as [|m0 mr]; [congruence|]. rewrite E'. rewrite HA1. rewrite HR, app_assoc. split; [reflexivity|]. split; [exact HI'|congruence].
+Qed.
+
+Theorem full_scan_correct st max :
+  Inv st -> 1 <= max ->
+  exists st', full_scan H (S (S (length (live (abs st))))) st OffsetOldest max [] = Ok (st', live (abs st), anext (abs st)) /\
+              Inv st' /\ abs st' = abs st.
+Proof.
+  intros HI Hmax.
+  assert (Hnx : 0 <= anext (abs st)).
+  { destruct HI as (Hne & HF & _). unfold abs, wnext. cbn [anext]. destruct (last_opt (segs st)) as [hd|] eqn:E; [|lia].
+    apply recs_next_nonneg. rewrite Forall_forall in HF. apply HF. now apply last_opt_in. }
+  destruct (full_scan_aux max Hmax (S (S (length (live (abs st))))) st OffsetOldest [] [] (live (abs st)) HI eq_refl eq_refl) as (st' & E & HI' & HA').
+  - unfold OffsetOldest. lia.
+  - unfold OffsetOldest, OffsetNewest. lia.
+  - lia.
+  - exists st'. split; [exact E|split; assumption].
+Qed.
+
+End FullScan.
